@@ -111,9 +111,10 @@ Proof.
   specialize (H _ _ _ _ _ H1 H2). discriminate.
 Qed.
 
-Lemma stale_recovered_witness :
+(* the former witness recovered-panic-stays-in-chain: repaired, the machine now agrees with Go *)
+Lemma stale_recovered_repaired :
   let w := mkfunc [IDeferFn [IPanic 5] [(0, 4%N)]; IDeferFn [IRecover false] []; IPanic 2] [(2, 9%N)] in
-  vm_run 40 w = Some (OPanic [(5, false, Some 4); (2, true, Some 9)]%N, [ERecover (Some 2%N)]) /\
+  vm_run 40 w = Some (OPanic [(5, false, Some 4)]%N, [ERecover (Some 2%N)]) /\
   go_run 40 w = Some (OPanic [(5, false, Some 4)]%N, [ERecover (Some 2%N)]).
 Proof. split; vm_compute; reflexivity. Qed.
 
@@ -221,6 +222,7 @@ Lemma step_returned_last t A fr junk :
   step t = Next (set_mode t (MNext (length A))).
 Proof.
   intros Hm Hc Hs Ht. unfold step. rewrite Hm. unfold step_next. rewrite Hc, nth_error_mid, Hs.
+  cbv zeta. change (status_eqb Returned Recovered) with false. cbv iota. rewrite Hc.
   rewrite prev_deferred_none by exact Ht. reflexivity.
 Qed.
 
@@ -233,6 +235,8 @@ Proof.
   replace (A ++ d :: fr :: junk) with ((A ++ [d]) ++ fr :: junk) by (rewrite <- app_assoc; reflexivity).
   replace (S (length A)) with (length (A ++ [d])) by (rewrite app_length; simpl; lia).
   rewrite nth_error_mid, Hs.
+  cbv zeta. change (status_eqb Returned Recovered) with false. cbv iota. rewrite Hc.
+  replace (A ++ d :: fr :: junk) with ((A ++ [d]) ++ fr :: junk) by (rewrite <- app_assoc; reflexivity).
   unfold prev_deferred. rewrite app_length. simpl. replace (length A + 1) with (S (length A)) by lia.
   rewrite <- app_assoc. simpl. rewrite nth_error_mid, Hd. simpl.
   rewrite set_nth_mid. reflexivity.
